@@ -166,3 +166,26 @@ Lemma fromgrid_axis_single (c : R) (omax : option R) : fromgrid_axis [c] None om
 Proof. reflexivity. Qed.
 Lemma fromgrid_axis_single_given (c lo hi : R) : fromgrid_axis [c] (Some lo) (Some hi) = Ok (mkAxis lo hi [c]).
 Proof. reflexivity. Qed.
+
+(* ---------- one grid point with explicit limits (nonuniform_partition / fromgrid) ---------- *)
+Definition or_default (o : option R) (d : R) : R := match o with Some v => v | None => d end.
+Lemma nonuniform_single_limits (c : R) (omin omax : option R) (fl : bool * bool) :
+  (omin <> None -> fst fl = false) -> (omax <> None -> snd fl = false) ->
+  nonuniform_axis [c] omin omax fl = Ok (mkAxis (or_default omin c) (or_default omax c) [c]).
+Proof.
+  intros H1 H2. unfold nonuniform_axis, or_default, hd0, last0.
+  destruct omin as [lo|], omax as [hi|], fl as [[|] [|]]; cbn [fst snd] in *;
+    try (specialize (H1 ltac:(discriminate)); discriminate);
+    try (specialize (H2 ltac:(discriminate)); discriminate); reflexivity.
+Qed.
+Lemma single_point_axis_valid (c lo hi : R) : lo <= c <= hi -> valid (mkAxis lo hi [c]).
+Proof. intros [H1 H2]. constructor; cbn; auto; lra. Qed.
+(* the user's limits are never discarded, for any number of grid points *)
+Lemma nonuniform_given_limits_kept (cs : Rvec) (lo hi : R) (omin omax : option R) (fl : bool * bool) (ax : Raxis) :
+  nonuniform_axis cs omin omax fl = Ok ax ->
+  (omin = Some lo -> a_lo ax = lo) /\ (omax = Some hi -> a_hi ax = hi) /\ a_cs ax = cs.
+Proof.
+  unfold nonuniform_axis. intros Hax.
+  destruct omin as [l|], omax as [h|], fl as [[|] [|]]; try discriminate Hax;
+    inversion Hax; subst; cbn [a_lo a_hi a_cs]; repeat split; intros E; try discriminate E; inversion E; reflexivity.
+Qed.
